@@ -376,9 +376,16 @@ class Seams:
             return subprocess.CompletedProcess(run_args, 1)
         with open(target, "r", encoding="utf-8", newline="") as f:
             text = f.read()
-        with open(target, "w", encoding="utf-8", newline="") as f:
-            f.write(text.replace("\t", "    "))
-            f.write("\n/* formatted */\n" if not target.endswith((".py", ".html")) else "\n")
+        text = text.replace("\t", "    ") + ("\n/* formatted */\n" if not target.endswith((".py", ".html")) else "\n")
+        if self.plan.get("extprog") == "rename":
+            # a formatter that writes a temporary file and renames it over the original (new inode, default mode)
+            tmp = target + ".fmt-tmp"
+            with open(tmp, "w", encoding="utf-8", newline="") as f:
+                f.write(text)
+            os.replace(tmp, target)
+        else:
+            with open(target, "w", encoding="utf-8", newline="") as f:
+                f.write(text)
         return subprocess.CompletedProcess(run_args, 0)
 
     # ------------------------------------------------------------------ install
